@@ -493,7 +493,9 @@ elif cfg.get("how") == "call-count":
     # deterministic "anywhere" placement: the signal is raised at the n-th entry of any Python function defined in nessai (nested callees included)
     n_target, n_seen = cfg["n_call"], [0]
     def prof(frame, event, arg):
-        if event == "call" and "/nessai/" in frame.f_code.co_filename:
+        # generator frames are skipped: their "call" event also fires when a generator is resumed only to be closed / finalised, where CPython never runs a signal
+        # handler (no eval-breaker check on a throw-resume) and where an exception raised by this callback would be "ignored": an interleaving the program cannot have
+        if event == "call" and "/nessai/" in frame.f_code.co_filename and not frame.f_code.co_flags & 0x20:
             n_seen[0] += 1
             if n_seen[0] == n_target:
                 sys.setprofile(None)
@@ -525,7 +527,7 @@ if cfg.get("calibrate"):
     import time
     n_calls = [0]
     def count(frame, event, arg):
-        if event == "call" and "/nessai/" in frame.f_code.co_filename:
+        if event == "call" and "/nessai/" in frame.f_code.co_filename and not frame.f_code.co_flags & 0x20:
             n_calls[0] += 1
     cls = type(fs.ns)
     loop = cls.nested_sampling_loop
